@@ -21,7 +21,7 @@ Record netcase := mkNetC {
   xc_sigtab : list (Z * Z * Z);
   xc_vrec : list (Z * Z * Z);
   xc_own : list (Z * (Z * Z * Z * Z));         (* member index, (poly, round, prev, psig) *)
-  xc_steps : list (list gevent * list (nat * obs_t))   (* per harness step: model events, observation per acting node *)
+  xc_steps : list (list (list gevent) * list (nat * obs_t))   (* per harness step: the admissible orders of its model events, observation per acting node *)
 }.
 
 Definition as_ncase (c : netcase) : ncase :=
@@ -62,7 +62,7 @@ Fixpoint run_events (c : netcase) (y : sys) (gs : list gevent) : sys * list (nat
   match gs with
   | [] => (y, [], true)
   | g :: gs' =>
-      let ok := gadm_b (x_cfg c) (x_idx c) (x_vpart c) (x_thr c) (x_F c) (x_polys c) y g in
+      let ok := gadm_b (x_cfg c) (x_idx c) (x_vpart c) (x_vrec c) (x_thr c) (x_F c) (x_polys c) y g in
       let o := outs_of c y g in
       let '(y', os, ok') := run_events c (x_gstep c y g) gs' in
       (y', o ++ os, ok && ok')
@@ -71,19 +71,35 @@ Fixpoint run_events (c : netcase) (y : sys) (gs : list gevent) : sys * list (nat
 Definition outs_for (j : nat) (os : list (nat * list out)) : list out :=
   flat_map (fun e => if Nat.eqb (fst e) j then snd e else []) os.
 
-Definition step_ok (c : netcase) (y : sys) (st : list gevent * list (nat * obs_t)) : sys * bool :=
-  let '(y', os, adm) := run_events c y (fst st) in
+Definition alt_ok (c : netcase) (y : sys) (gs : list gevent) (obs : list (nat * obs_t)) : sys * bool :=
+  let '(y', os, adm) := run_events c y gs in
   (y', adm
-       && forallb (fun jo => obs_eqb (outs_for (fst jo) os) (snd jo)) (snd st)
+       && forallb (fun jo => obs_eqb (outs_for (fst jo) os) (snd jo)) obs
        (* a node that is not listed as acting did nothing observable *)
-       && forallb (fun e => existsb (fun jo => Nat.eqb (fst jo) (fst e)) (snd st)
+       && forallb (fun e => existsb (fun jo => Nat.eqb (fst jo) (fst e)) obs
                             || (negb (proj_rej (snd e)) && match proj_puts (snd e), proj_emits (snd e) with [], [] => true | _, _ => false end)) os).
 
-Fixpoint first_bad (c : netcase) (i : Z) (y : sys) (sts : list (list gevent * list (nat * obs_t))) : Z :=
+(* a harness step whose model events are concurrent in the implementation (sync manager vs
+   aggregator inside one node) lists every admissible order; different orders can explain the same
+   observation and leave different states (a catch-up sleeper or not), so every state reached by an
+   admissible, observation-matching order is kept as a candidate (capped) *)
+Fixpoint picks (c : netcase) (y : sys) (alts : list (list gevent)) (obs : list (nat * obs_t)) : list sys :=
+  match alts with
+  | [] => []
+  | gs :: alts' => let '(y', ok) := alt_ok c y gs obs in
+                   if ok then y' :: picks c y alts' obs else picks c y alts' obs
+  end.
+
+Fixpoint first_bad_from (c : netcase) (i : Z) (cands : list sys) (sts : list (list (list gevent) * list (nat * obs_t))) : Z :=
   match sts with
   | [] => -1
-  | st :: sts' => let '(y', ok) := step_ok c y st in if ok then first_bad c (i + 1) y' sts' else i
+  | st :: sts' => match firstn 6 (flat_map (fun y => picks c y (fst st) (snd st)) cands) with
+                  | [] => i
+                  | cs => first_bad_from c (i + 1) cs sts'
+                  end
   end.
+
+Definition first_bad (c : netcase) (i : Z) (y : sys) sts : Z := first_bad_from c i [y] sts.
 
 Definition net_ok (c : netcase) : bool := first_bad c 0 (x_init c) (xc_steps c) =? -1.
 Definition mismatches (cs : list netcase) : list Z := mism_from net_ok 0 cs.
